@@ -46,7 +46,8 @@ RULE = ("A case is a loop nest plus a collection configuration. Part 'kernels': 
         "flat two-finger or leader-follower intersection, populate of the output at every output rank; operands with "
         "explicit zeros, empty sub-fibers, empty roots) = nests of depth 1-4 loop ranks. Part 'opnests': one operator "
         "(for..in a | a & b | leader-follower(a, b) | z << a | z << (a & b) | z << leader-follower(a, b) | "
-        "a.project(k -> mul*k+off, interval, start_pos, rank_id)) at the leaf rank, optionally "
+        "a.project(k -> mul*k+off, interval, start_pos, rank_id) | for..in a.iterRange(lo, hi[, start_pos]) / a.iterActive() / "
+        "a.iterOccupancy(start_pos) -- fiber_pos stays the index in a) at the leaf rank, optionally "
         "below one outer loop -- a plain loop over D[X], or a dense by-reference walk (iterShapeRef / "
         "iterActiveShapeRef with a drawn active range / iterRangeShapeRef with drawn start, end, step) of D[X] or of "
         "the 2-rank output Z[X, K] whose fibers are then the populate destinations -- (1-4 instances with their own "
@@ -60,7 +61,7 @@ RULE = ("A case is a loop nest plus a collection configuration. Part 'kernels': 
         "integer m*K + k. Configuration: optionally an earlier, unrelated collection under the SAME file prefix "
         "(every rank registered, one row in every trace file), the order in which the file and the consumable form of "
         "each trace are requested (file first / consumable first / alternating), all sessions of a case share one "
-        "prefix; an order of "
+        "prefix; 1-2 registration-subset sessions (below); an order of "
         "the flush thresholds {2,3,5,1000}, 0-n loop ranks registered up front, consumable traces drained at the end "
         "or after every outermost body. Every session registers iter and the labels 0-5 of intersect_, populate_, "
         "populate_read_, populate_write_, project_ on every loop rank (and on a project's source rank); the first "
@@ -82,7 +83,16 @@ RULE = ("A case is a loop nest plus a collection configuration. Part 'kernels': 
         "coordinate is written at least once; (6) label numbers are not hard-coded: the roles of a rank must map "
         "injectively onto the labels 0-5 of their type (read/write of one destination onto the same label), every "
         "other label stays header-only; (7) consumable rows == file rows; (8) the files of the sessions run with the "
-        "other three thresholds are byte-identical. Exact stamp values are not asserted. Non-trivial: >= 2 loop "
+        "other three thresholds are byte-identical; (9) registration subsets: the same nest is re-run in 1-2 sessions that "
+        "register only a drawn subset of the (rank, type) pairs -- picked among the traces that held rows, plus "
+        "arbitrary pairs; single-trace sessions, sessions that leave an outer rank without any trace, each trace as "
+        "file, as consumable ONLY, or both -- and every registered trace must show the same header, the same "
+        "(point.., fiber_pos) rows and the same stamp columns of every loop level that is not the level of a populate "
+        "loop as in the all-registered session (the populate iterator ticks its level once more per destination row "
+        "it traces, so on the unchanged library the stamps of that level depend on whether populate_read/write are "
+        "registered -- observed: iter stamps 0,2 with and 0,1 without the write trace; rows of the destination side of "
+        "an inserting populate are excluded); part 'small' runs one single-trace session per trace that held rows. "
+        "Exact stamp values are not asserted. Non-trivial: >= 2 loop "
         "levels, an inserting populate or an operand fiber storing an empty element, and a trace with more than 3 "
         "lines (so thresholds 2 and 3 flush mid-session at different boundaries). Distinct = SHA-1 of the case.")
 
@@ -100,9 +110,13 @@ ASSUMPTIONS = ["operands, destinations and the output are built / tiled / swizzl
                "project: increasing affine maps k -> mul*k + off with mul >= 1, off >= 0; start_pos skips only "
                "elements whose image lies below the interval; the projected fiber is consumed completely "
                "(plain loop or populate source)",
-               "all traces of a session are registered together: the destination-side rows of an inserting populate "
-               "depend on whether the write trace is registered too, and those rows are only checked for order and "
-               "completeness",
+               "the main session registers all traces together; in the registration-subset sessions the destination-side "
+               "rows of an inserting populate (they depend on whether the write trace is registered too) and the stamp "
+               "column of a populate loop's own level (it advances once more per traced destination row) are not "
+               "compared with the main session",
+               "range loops: f.iterRange(lo, hi) with either end open, f.iterActive() after setActive((lo, hi)), "
+               "f.iterOccupancy(start_pos=n) and f.iterRange(lo, hi, start_pos=n) with 0 <= n < stored length and every "
+               "element in front of n below lo (the documented shortcut contract)",
                "follower probes of a leader-follower intersection for a coordinate the follower does not store: "
                "the row must exist, its position is not asserted (there is no element)",
                "tuple coordinates occur only in part 'flattened': one flattened rank (levels=1) that is iterated by a "
@@ -1207,6 +1221,15 @@ def classify(rec, prog, ses, insts, traces, prefix_cls=""):
     pcfg = getattr(prog, "_cfg", {})
     unreached = len({e["level"] for e in ses.log}) < len(prog.order) and \
         max(e["level"] for e in ses.log) + 1 >= pcfg.get("preregister", 0)
+    plans = getattr(prog, "_subset_plans", [])
+    rec.cls("subset-session-single-trace", any(len(pl) == 1 for pl in plans))
+    rec.cls("subset-session-consumable-only-trace", any(how == "consumable" for pl in plans for _, _, how in pl))
+    rec.cls("subset-session-outer-rank-untraced",
+            any({prog.levels[r] for r, _, _ in pl} and min(prog.levels[r] for r, _, _ in pl) > 0 and
+                any(traces[(r, ty)].rows for r, ty, _ in pl) for pl in plans))
+    rec.cls("subset-session-dest-read-without-write",
+            any(any(ty.startswith("populate_read_") and traces[(r, ty)].rows for r, ty, _ in pl) and
+                not any(ty.startswith("populate_write_") for _, ty, _ in pl) for pl in plans))
     rec.cls("stale-files-under-prefix", bool(pcfg.get("stale")))
     rec.cls("stale-files+unreached-rank+consumable-first",
             bool(pcfg.get("stale")) and unreached and pcfg.get("reg") in ("consumable", "mixed"))
@@ -1352,7 +1375,7 @@ def opnest_cases(draw):
             proj["start"] = draw(st.integers(0, limit))
     nest = {"op": op, "shape": S, "outer": outer, "inst": insts, "proj": proj}
     if op == "iter_range":
-        form = draw(st.sampled_from(["range", "active", "occ_start", "range_start", "range"]))
+        form = draw(st.sampled_from(["active", "range", "occ_start", "range_start", "active", "range"]))
         lo = draw(st.sampled_from(list(range(S))))
         hi = draw(st.sampled_from(list(range(lo + 1, S + 1))))
         if form in ("range", "range_start"):
